@@ -167,3 +167,28 @@ pub fn age_all(store: &TensorStore) {
         }
     }
 }
+
+thread_local! {
+    static POOLED: std::cell::RefCell<Option<TensorStore>> = const { std::cell::RefCell::new(None) };
+}
+
+/// An empty TensorStore. Constructing one costs ~1 ms (slab pre-allocation), so the sequential and
+/// scheduled parts reuse one store per shard thread: `clear()` it and make sure it is empty; a
+/// store that is not empty after `clear()` is replaced by a fresh one.
+pub fn empty_store(reuse: bool) -> TensorStore {
+    if !reuse {
+        return TensorStore::new();
+    }
+    POOLED.with(|p| {
+        let mut p = p.borrow_mut();
+        if let Some(s) = p.as_ref() {
+            s.clear();
+            if s.len() == 0 && s.scan("").is_empty() {
+                return s.clone();
+            }
+        }
+        let s = TensorStore::new();
+        *p = Some(s.clone());
+        s
+    })
+}
